@@ -93,6 +93,9 @@ def perturb_strategy(ctx):
         # grown and released while other parts still point into them
         st.fixed_dictionaries({"kind": st.just("macros"), "text": _macro_texts()}),
         st.fixed_dictionaries({"kind": st.just("macros"), "text": _macro_texts()}),
+        # whole programs (C01's structured generator): every lowering path, where a compiler-internal address or an
+        # uninitialised field can leak into an operand of the output
+        st.fixed_dictionaries({"kind": st.just("prog"), "case": _prog_cases()}),
     )
     return st.fixed_dictionaries({"input": inp, "t": st.integers(0, 2), "E": st.booleans(),
                                   "perts": st.lists(pert, min_size=2, max_size=4)})
@@ -106,6 +109,11 @@ def _init_cases():
 def _token_texts():
     from .c13 import token_texts
     return token_texts()
+
+
+def _prog_cases():
+    from ..gen import proggen
+    return proggen.programs()
 
 
 def _macro_texts():
@@ -192,6 +200,8 @@ def _input_bytes(inp, ctx):
         if inp["wrap"] == "lines":
             return ("\n".join(t[i:i + 7] for i in range(0, len(t), 7)) + "\n").encode("utf-8", "surrogateescape"), "text.c"
         return (t + "\n").encode("utf-8", "surrogateescape"), "text.c"
+    if k == "prog":
+        return inp["case"]["src"].encode(), "prog.c"
     if k == "macros":
         return inp["text"].encode("utf-8", "surrogateescape"), "macros.c"
     if k == "mutant":
